@@ -114,6 +114,7 @@ func (c xcase) state() ws.State {
 type xresult struct {
 	Case  string `json:"case"`
 	Panic string `json:"panic,omitempty"`
+	Stall string `json:"stall,omitempty"`
 	Err   string `json:"err,omitempty"`
 	Alloc uint64 `json:"alloc"`  // TotalAlloc delta around the call
 	Sys   uint64 `json:"sys"`    // Sys delta around the call
@@ -197,6 +198,17 @@ func TestExtremeChild(t *testing.T) {
 		}
 		src := tx.NewSrc(c.stream(), nil)
 		res := xresult{Case: c.key()}
+		switch c.Entry {
+		case "ReadMessage", "ReadData", "Reader+ReadAll":
+			// these read with io.ReadAll-style loops: make sure the message
+			// reader does not stall on this stream before entering them
+			if err := preCheck(frameOpts{state: c.state()}, c.stream(), c.Entry); err != nil {
+				res.Stall = err.Error()
+				b, _ := json.Marshal(res)
+				fmt.Fprintf(os.Stdout, "%s%s\n", childMarker, b)
+				continue
+			}
+		}
 		runtime.GC()
 		var m0, m1 runtime.MemStats
 		runtime.ReadMemStats(&m0)
@@ -288,6 +300,8 @@ func judge(c xcase, results map[string]xresult, tail string) xverdict {
 		return xverdict{true, "the process died: VERIF-ATTRIBUTED (out-of-memory / crash text relayed from the child that decoded this input) " + tail, r}
 	case r.Panic != "":
 		return xverdict{true, "panic: " + r.Panic, r}
+	case r.Stall != "":
+		return xverdict{true, r.Stall, r}
 	case r.Alloc > allocBound || r.Sys > allocBound:
 		return xverdict{true, fmt.Sprintf("allocated %d bytes (address space +%d) for a stream of %d bytes", r.Alloc, r.Sys, len(c.stream())), r}
 	}
